@@ -695,6 +695,59 @@ def atomicity_problems(spec, model, fs, planted=None):
 
 # ------------------------------------------------------------------ replay of a reported case
 
+def dangling_stream_case(seed, i, kind_label):
+    """a streaming out-port that nobody consumes: it dangles in a plain Run, or its only consumer is cut off by RunTo (the sink
+    takes the port over in both cases).  The run terminates with exit 0, the producer's commands all ran, no FIFO, no file at
+    the stream path and no temp dir is left (shape of finding D19)"""
+    rng = random.Random(seed * 472882027 + i)
+    sp = Spec(maxtasks=rng.randint(1, 4), bufsize=rng.choice([1, 2, 128]))
+    L = rng.randint(1, 4)
+    paths = ["ds%d.txt" % j for j in range(L)]
+    for p in paths:
+        sp.files[p] = ("payload of %s\n" % p) * rng.choice([1, 50, 5000, 20000])      # also more than the 64 KiB pipe buffer
+    s = sp.src("src", paths)
+    mode = ["dangling", "runto", "dangling-beside-consumer"][i % 3]
+    prod = sp.proc(Proc("prod", kind="cat", ins=[("a", [(s, "out")])], outs=[("o", "{i:a}.stream")], stream_outs=["o"]))
+    if mode == "runto":
+        sp.proc(Proc("cons", kind="cat", ins=[("a", [(prod, "o")])], outs=[("o", "{i:a|basename}.cons")]))
+        sp.runto = [prod]
+        sp.runto_mode = rng.choice(["N", "R", "P"])
+        sp.max += 2 * L
+    elif mode == "dangling-beside-consumer":
+        # a second, consumed stream beside the dangling one
+        p2 = sp.proc(Proc("prod2", kind="cat", ins=[("a", [(s, "out")])], outs=[("o", "{i:a}.stream2")], stream_outs=["o"]))
+        sp.proc(Proc("cons2", kind="cat", ins=[("a", [(p2, "o")])], outs=[("o", "{i:a|basename}.cons2")]))
+        sp.max += 2 * L
+    sc = Scratch()
+    try:
+        sc.plant(sp.files)
+        impl = run_impl(sc, sp, timeout=30)
+        problems = []
+        if impl["timed_out"] or "all goroutines are asleep" in impl["stderr"]:
+            problems.append(("deadlock-or-hang", "a workflow whose streaming out-port nobody consumes (%s) does not terminate" % mode))
+        elif impl["rc"] != 0 or not impl["returned"]:
+            problems.append(("unexpected-failure", "exit %s: %s" % (impl["rc"], impl["stderr"][-200:])))
+        else:
+            ran = [k for k in started_keys(impl["trace"]) if k.startswith("prod ")]
+            if len(ran) != L:
+                problems.append(("tasks-differ", "%d of the %d tasks of the stream producer ran" % (len(ran), L)))
+            lo = [p for p, k in impl["snap_at_return"].items() if p.split("/")[-1].startswith("_scipipe_tmp") or k == "p"] + leftovers(impl["fs"])
+            if lo:
+                problems.append(("leftover-at-return", "temp dir or FIFO present when Run returns: %s" % sorted(set(lo))[:3]))
+            traces = [p for p in impl["fs"] if p.endswith(".stream") or p.endswith(".stream2")]
+            if traces:
+                problems.append(("stream-left-trace", "a file exists at a streaming output path: %s" % traces[:2]))
+            if mode == "dangling-beside-consumer":
+                files = data_files(impl["fs"])
+                bad = [p for p in paths if files.get(p + ".stream2.cons2") != sp.files[p]]
+                if bad:
+                    problems.append(("stream-bytes", "the consumed stream beside the dangling one did not deliver the producer's bytes for %s" % bad[:2]))
+        return {"spec": sp.text(), "bufsize": sp.bufsize, "problems": problems, "ntasks": L, "nskip": 0, "rc": impl["rc"], "stderr": impl["stderr"][-300:],
+                "yield": None, "wall": impl["wall"], "kind": kind_label + "-" + mode}
+    finally:
+        sc.close()
+
+
 class RawSpec:
     """a workflow spec given as the text of a replay file (the line format wfrun and the model driver read)"""
     def __init__(self, text, bufsize=None):
